@@ -110,7 +110,7 @@ def check(P, R):
          'the buffer never moves to a temporary file while parts arrive: a large body stays in memory')
     for d in rebinds:
         has_tmp = any(isinstance(x, ast.Call) and call_attr(x) in ('TemporaryFile', 'NamedTemporaryFile', 'SpooledTemporaryFile')
-                      for x in ast.walk(d.stmt))
+                      for x in (rd.closure_nodes(d.value, d.node, follow_mut=False) if d.value is not None else ast.walk(d.stmt)))
         test = enclosing(d.stmt, ast.If)
         ok, det = False, 'the switch is not under a size test'
         if test is not None and has_tmp:
@@ -316,11 +316,12 @@ def check_get_body_string(P, R, rid):
         # unknown length: read threshold + k, k >= 1
         if isinstance(a, ast.Name):
             defs = rs.at(cn, a.id)
-            unknown = [d for d in defs if d.value is not None and thr in names_loaded(d.value)]
+            def alts(v_):
+                return alts(v_.body) + alts(v_.orelse) if isinstance(v_, ast.IfExp) else [v_]
+            unknown = [v_ for d in defs if d.value is not None for v_ in alts(d.value) if thr in names_loaded(v_)]
             oku = bool(unknown)
             det = 'no substitute size for an unknown length'
-            for d in unknown:
-                v = d.value
+            for v in unknown:
                 good = isinstance(v, ast.BinOp) and isinstance(v.op, ast.Add) and (
                     (src(v.left) == thr and isinstance(v.right, ast.Constant) and isinstance(v.right.value, int) and v.right.value >= 1) or
                     (src(v.right) == thr and isinstance(v.left, ast.Constant) and isinstance(v.left.value, int) and v.left.value >= 1))
